@@ -41,6 +41,7 @@ def run(eng, rep) -> None:
     rep.rule("R06.1", "signal/message attributes <- layout leaf / binding (name, start, length, type, signedness, id, dlc, period); one signal per leaf")
     rep.rule("R06.2", "each emit-able scalar type has can_decode_signal_as_<T> / can_encode_signal_from_<T>, defined and declared, 6 parameters")
     rep.rule("R06.3", "subscripts of all-constant literal dicts use keys that exist; short integers get a C member type")
+    rep.rule("R06.8", "grouping containers are not built from one shared mutable default (dict.fromkeys(keys, []), [[]] * n) that is then changed through a slot")
     rep.rule("R06.4", "free names of the device templates are bound at the render sites")
     rep.rule("R06.7", "run-time handlers place the field with their own (start, length) through the bit-field primitive; no symmetric clamp on the encode value path")
     rep.rule("R06.5", "no implicit narrowing below 64 bits between `<< start` and the handler's return")
@@ -235,6 +236,16 @@ def run(eng, rep) -> None:
                 # only used in `{% if not x %}`-style tests: undefined is falsy in jinja (documented reliance)
                 rep.info("R06.4", rs.path, rs.func.qual, "free name %s" % n, "not bound at this render site (jinja undefined -> falsy)")
             rep.ok("R06.4", rs.path, rs.func.qual, "bound names: %s" % ",".join(sorted(rs.bound)), "%d free names, %d unbound" % (len(free), len(unb)))
+    # ---- R06.8: grouping containers (device -> messages, ...) hold one fresh list per key -------------
+    from ..dataflow import shared_default_aliasing
+    n_g = 0
+    for f_ in prog.functions.values():
+        if not f_.module.name.startswith("fcp_can_c"):
+            continue
+        n_g += 1
+        for nm_, made_, st_ in shared_default_aliasing(f_.node):
+            rep.violation("R06.8", f_.file, f_.qual, "%s = %s ... %s" % (nm_, norm(made_, 50), norm(st_, 50)), "every slot of '%s' holds the same object, and it is changed through one slot: each key (device) ends up with the union of all entries, so a device's C files describe messages it does not send" % nm_)
+    rep.ok("R06.8", "-", "-", "grouping containers of the C writer", "%d functions scanned" % n_g)
     # ---- R06.5 / R06.6 (typed AST) -------------------------------------------------------
     r065(eng, rep, tu, fns)
     r066(eng, rep, fns)
